@@ -179,7 +179,36 @@ def _nnf_split(formulas):
     return [z3.simplify(a) for a in A if not z3.is_quantifier(a)], [a for a in A if z3.is_quantifier(a)]
 
 
+def has_alternation(q):
+    """an existential anywhere, or a universal that is not a top-level hypothesis / the goal's own prefix: the shapes the
+    plain instantiate-and-check cannot use"""
+    def nested(t, top):
+        stack = [(t, top)]
+        seen = 0
+        while stack:
+            x, is_top = stack.pop()
+            seen += 1
+            if seen > 20000:
+                return False
+            if z3.is_quantifier(x):
+                if not x.is_forall() or not is_top:
+                    return True
+                stack.append((x.body(), False))
+            elif z3.is_app(x):
+                keep = is_top and z3.is_and(x)
+                for ch in x.children():
+                    stack.append((ch, keep))
+        return False
+    g = q.goal
+    while z3.is_quantifier(g) and g.is_forall():
+        g = g.body()
+    return nested(g, False) or any(nested(a, True) for a in flatten(q.assumptions))
+
+
 def check_nnf(q, timeout_ms, rounds=4):
+    if not has_alternation(q):
+        return 'unknown'
+    t_end = time.time() + max(5.0, 3 * timeout_ms / 1000.0)
     """Instantiate-and-check with skolemisation between the rounds: an instance of a lemma whose hypothesis is itself
     universally quantified becomes, in negation normal form, a clause about a fresh skolem constant, for which the next
     round can instantiate the facts that establish the hypothesis."""
@@ -187,7 +216,9 @@ def check_nnf(q, timeout_ms, rounds=4):
     seen = {}
     for _ in range(rounds):
         new = []
-        for i_ in inst.instantiate(quants, ground, rounds=1):
+        if time.time() > t_end:
+            return 'unknown'
+        for i_ in inst.instantiate(quants, ground, rounds=1, max_inst=1500):
             f_ = fold(i_)
             if f_.get_id() not in seen:
                 seen[f_.get_id()] = f_
